@@ -128,6 +128,10 @@ impl Disk
                         return false;
                     }
                 }
+                if u16::from_le_bytes(directory.header.num_files) as usize > directory.entries.len() {
+                    log::debug!("header file count {}",u16::from_le_bytes(directory.header.num_files));
+                    return false;
+                }
                 // test every directory entry that is used
                 for i in 0..u16::from_le_bytes(directory.header.num_files) {
                     let entry = directory.entries[i as usize];
@@ -344,7 +348,14 @@ impl Disk
                 count += 1;
             }
             ans.fs_type = u16::to_le_bytes(ftype).to_vec();
-            ans.eof = u32::to_le_bytes(BLOCK_SIZE as u32*ans.chunks.len() as u32 - u16::from_le_bytes(entry.bytes_remaining) as u32).to_vec();
+            let eof = match (BLOCK_SIZE as u32*ans.chunks.len() as u32).checked_sub(u16::from_le_bytes(entry.bytes_remaining) as u32) {
+                Some(eof) => eof,
+                None => {
+                    log::error!("directory entry has more unused bytes than the file has");
+                    return Err(Box::new(Error::BadFormat));
+                }
+            };
+            ans.eof = u32::to_le_bytes(eof).to_vec();
             ans.modified = entry.mod_date.to_vec();
             return Ok(ans);
         } else {
